@@ -305,7 +305,16 @@ func loopPos(l *Loop) token.Pos {
 	if best.pos != 0 {
 		return best.pos
 	}
-	return token.Pos(l.Head.Index)
+	if len(ps) > 0 {
+		m := ps[0]
+		for _, p := range ps {
+			if p < m {
+				m = p
+			}
+		}
+		return m
+	}
+	return token.NoPos
 }
 
 // inferBVInts: Go `int` values that take part in bit operations are kept as
